@@ -89,7 +89,13 @@ def repo_files(cfgs, max_bytes=4000, extra=('test/blt/M135.blt', 'test/blt/scotl
                         'equal': bool(p.ballotLinesEqual)})
         _FILES[key] = out
     for c in _FILES[key]:
-        yield with_cfgs(c, cfgs)
+        if c['equal']:
+            # equal-rank ballots are read only by the parametric meek / warren rules (scope limit of C02 and others)
+            sub = [x for x in cfgs if x.get('rule') in ('meek', 'warren')]
+            if sub:
+                yield with_cfgs(c, sub)
+        else:
+            yield with_cfgs(c, cfgs)
 
 
 def standard(tier, snapshots_cost=1.0):
